@@ -82,7 +82,7 @@ fn trunc_us(ns: i128) -> i128 {
 }
 
 fn run_one(ctx: &RunCtx, tier: Tier) -> RunOut {
-    let max_len = tier.pick(3usize, 4usize);
+    let max_len = tier.pick(4usize, 5usize);
     let cup = choose("cup", 2) == 1;
     let bad_url = !cup && choose("bad_url", 2) == 1;
     let mut setup = Setup::new(Mode::Start);
@@ -544,7 +544,7 @@ fn parts(tier: Tier) -> Vec<PartDef> {
     ), PartDef::new(
         "histories-with-crash-points",
         Cfg::new("C08/histories"),
-        json!({"max_history_length": tier.pick(3, 4), "check_classes": 13, "ping_classes": 4, "restart": "any position", "cup": ["off", "on"], "construction_failure_config": true,
+        json!({"max_history_length": tier.pick(4, 5), "check_classes": 13, "ping_classes": 4, "restart": "any position", "cup": ["off", "on"], "construction_failure_config": true,
                "crash_points": "every environment interaction (decided per surviving committed snapshot; each snapshot is rebuilt into a fresh state machine)",
                "exploration": "full product"}),
         move |ctx| run_one(ctx, tier),
